@@ -50,11 +50,28 @@ type chunkReader struct {
 	chunks      []int
 	eofWithLast bool
 	shortReads  int
+	// idle: before chunk k the source has nothing for idle[k%len] calls and says so with (0, nil) - an io.Pipe fed with
+	// empty writes, a polling serial source between two bytes. Legal for an io.Reader; the data behind it is intact.
+	idle      []int
+	idleLeft  int
+	idleArmed bool
+	chunkNo   int
 }
 
 func (r *chunkReader) Read(p []byte) (int, error) {
 	if len(p) == 0 {
 		return 0, nil
+	}
+	if len(r.idle) > 0 && len(r.b) > 0 {
+		if !r.idleArmed {
+			r.idleLeft, r.idleArmed = r.idle[r.chunkNo%len(r.idle)], true
+		}
+		if r.idleLeft > 0 {
+			r.idleLeft--
+			return 0, nil
+		}
+		r.idleArmed = false
+		r.chunkNo++
 	}
 	if len(r.b) == 0 {
 		return 0, io.EOF
@@ -159,14 +176,14 @@ func init() {
 		ID:    "C19",
 		Level: "exploration",
 		Rule: "seeded record sequences (1..12 records, time stamps over the whole int32 range incl. both extremes and negatives, messages of 1..2000 bytes incl. leading-zero nibbles) written by an independent line encoder and read back " +
-			"through 10 reader flavours (whole, one byte per Read, random fragments, last bytes together with io.EOF, fragments + EOF-with-data, a real os.Pipe, an io.Pipe fed by a writer goroutine in random fragments, and *bufio.Reader / *bytes.Buffer / *strings.Reader handed over directly); plus mutated lines embedded between two intact lines. " +
+			"through 11 reader flavours (a source that answers up to 1000 calls in a row with (0, nil) between its pieces, whole, one byte per Read, random fragments, last bytes together with io.EOF, fragments + EOF-with-data, a real os.Pipe, an io.Pipe fed by a writer goroutine in random fragments, and *bufio.Reader / *bytes.Buffer / *strings.Reader handed over directly); plus mutated lines embedded between two intact lines. " +
 			"distinct = distinct byte streams x reader flavour (content hash); every case is non-trivial (at least one record is decoded and compared)",
 		Assumptions: []string{
 			"the line format is the one the out-port writes: decimal time stamp, one space, upper-case hex pairs, newline",
 			"a malformed line is: a character that is no decimal digit in the time stamp field (other than a leading sign), odd number of hex digits, a character that is not a hex digit in the hex field (incl. a second separator, which is what a lost terminator produces), no separator, no terminator before end of stream",
 			"lower-case hex digits are not treated as malformed",
 		},
-		Require: []string{"records_decoded", "reader:onebyte", "reader:eof-with-data", "reader:ospipe", "reader:iopipe", "mutant:odd-hex", "mutant:non-hex", "mutant:no-separator", "mutant:no-terminator", "mutant:lost-terminator", "mutants_of_long_lines", "mutant:char-before-terminator", "mutant:bad-timestamp", "mutant_reader:bufio", "reader:bufio", "intact_line_after_mutant_decoded", "two_stream_sessions", "long_sessions_records_kept"},
+		Require: []string{"records_decoded", "reader:onebyte", "reader:eof-with-data", "reader:ospipe", "reader:iopipe", "mutant:odd-hex", "mutant:non-hex", "mutant:no-separator", "mutant:no-terminator", "mutant:lost-terminator", "mutants_of_long_lines", "mutant:char-before-terminator", "mutant:bad-timestamp", "mutant_reader:bufio", "reader:bufio", "intact_line_after_mutant_decoded", "two_stream_sessions", "long_sessions_records_kept", "reader:idle-source"},
 		Run:     runC19,
 	})
 }
@@ -235,7 +252,7 @@ func showRecs(l []rec) []string {
 }
 
 func runC19(c *mon.Ctx) {
-	flavours := []string{"whole", "onebyte", "fragments", "eof-with-data", "fragments+eof", "ospipe", "iopipe", "bufio", "bytes.Buffer", "strings.Reader"}
+	flavours := []string{"whole", "onebyte", "fragments", "eof-with-data", "fragments+eof", "ospipe", "iopipe", "bufio", "bytes.Buffer", "strings.Reader", "idle-source"}
 	mkReader := func(fl string, stream []byte, r *mon.Rand) (io.Reader, func()) {
 		switch fl {
 		case "whole":
@@ -247,6 +264,9 @@ func runC19(c *mon.Ctx) {
 			return bytes.NewBuffer(append([]byte(nil), stream...)), func() {}
 		case "strings.Reader":
 			return strings.NewReader(string(stream)), func() {}
+		case "idle-source":
+			// runs of 1..1000 empty reads (0, nil) between the pieces
+			return &chunkReader{b: stream, chunks: r.Partition(len(stream), 9), idle: []int{r.Pick(1, 5, 99), 0, r.Pick(100, 101, 250, 1000), 0, 0, 3}}, func() {}
 		case "onebyte":
 			return &oneByteReader{b: append([]byte(nil), stream...)}, func() {}
 		case "fragments":
